@@ -56,7 +56,7 @@ func genC34(tier string, seed uint64, idx int) *simkit.Plan {
 			delay = 0
 		}
 		p.Add(simkit.St("use", rng.Uint64(), "i", rng.Intn(assigns), "op", []string{"upload", "upload", "delete", "read"}[rng.Intn(4)],
-			"tok", []string{"own", "own", "own", "other", "suffix", "none", "wrongkey", "algnone", "fresh", "garbage"}[rng.Intn(10)], "delay", delay, "ms", rng.Intn(1000)))
+			"tok", []string{"own", "own", "own", "other", "suffix", "none", "wrongkey", "algnone", "fresh", "garbage", "nbf", "readtok-reused"}[rng.Intn(12)], "delay", delay, "ms", rng.Intn(1000)))
 	}
 	return p
 }
@@ -196,6 +196,30 @@ func execC34(r *simkit.Run) {
 				tok, _ = jwt.NewWithClaims(jwt.SigningMethodNone, c).SignedString(jwt.UnsafeAllowNoneSignatureType)
 			case "garbage":
 				tok = "abc.def.ghi"
+			case "nbf":
+				// right key, right file, not expired - but not valid before an hour from now
+				c := security.SeaweedFileIdClaims{Fid: f.fid, StandardClaims: jwt.StandardClaims{ExpiresAt: time.Now().Unix() + 7200, NotBefore: time.Now().Unix() + 3600}}
+				tok, _ = jwt.NewWithClaims(jwt.SigningMethodHS256, c).SignedString([]byte(signKey))
+			case "readtok-reused":
+				// a token of the OTHER key domain (read key for writes, write key for reads), used once where it
+				// is valid and then presented for this operation
+				if op == "read" {
+					tok = string(security.GenJwt(security.SigningKey(key), 3600, f.fid))
+				} else {
+					tok = string(security.GenJwt(security.SigningKey(readKey), 3600, f.fid))
+					if p.C("readkey") == 1 {
+						req, _ := http.NewRequest("GET", "http://"+f.url+"/"+f.fid, nil)
+						req.Header.Set("Authorization", "BEARER "+tok)
+						if resp, err := n.roundTrip(req); err == nil {
+							io.Copy(io.Discard, resp.Body)
+							r.Log("the read token was first used for a GET -> %d", resp.StatusCode)
+							if resp.StatusCode == http.StatusUnauthorized {
+								r.Violate("valid-token-rejected", "read/fresh-read-token", "GET of %s with a fresh read token was rejected", f.fid)
+								return
+							}
+						}
+					}
+				}
 			}
 			if op == "read" && p.C("readkey") == 0 {
 				expect = "accept" // no read key configured: reads are open
